@@ -1,6 +1,6 @@
 (* Props/C15.v — C15 property theorems only. *)
 From Coq Require Import List String Ascii Bool.
-From Verif Require Import Base.StrX Model.C15_Ref Proofs.C15.
+From Verif Require Import Base.StrX Model.C15_Ref Proofs.C15 Proofs.C15rt.
 Import ListNotations.
 
 (* strings outside the grammar are rejected: whatever [parse] accepts has a well-formed tag
@@ -27,6 +27,28 @@ Theorem C15_add_digest_frame : forall r d, let r' := add_digest r d in
 Proof. exact add_digest_frame. Qed.
 Print Assumptions C15_add_digest_frame.
 
+(* the canonical form re-parses to the same components: for EVERY input string the parser accepts, printing the
+   parsed reference (CommonName) and parsing that text again gives exactly the same six components *)
+Theorem C15_print_reparse_roundtrip : forall s r, parse s = Some r -> parse (print r) = Some r.
+Proof. exact parse_print_roundtrip. Qed.
+Print Assumptions C15_print_reparse_roundtrip.
+
+(* ... and so does the result of replacing the tag or digest of an accepted reference by a well-formed one:
+   the edited reference prints to a string that parses back to exactly the edited components *)
+Theorem C15_edit_roundtrip : forall s r, parse s = Some r ->
+  (forall t, tag_ok t = true -> parse (print (set_tag r t)) = Some (set_tag r t)) /\
+  (forall d, digest_ok d = true -> parse (print (set_digest r d)) = Some (set_digest r d)) /\
+  (forall d, digest_ok d = true -> parse (print (add_digest r d)) = Some (add_digest r d)).
+Proof. exact edit_roundtrip. Qed.
+Print Assumptions C15_edit_roundtrip.
+
+(* what "canonical" means for a registry reference: a registry that is never one of the Docker Hub aliases, a
+   repository of lower-case path components (with library/ in front of a one-component Docker Hub name), and a
+   tag or a digest *)
+Theorem C15_accepted_is_canonical : forall s r, parse s = Some r -> canonical r.
+Proof. exact parse_canonical. Qed.
+Print Assumptions C15_accepted_is_canonical.
+
 (* Docker Hub expansion and rejections on concrete inputs (tests of the model, not universal claims) *)
 Definition p (s : string) := option_map (fun r => (to_string (registry r), to_string (repository r), to_string (tag r))) (parse (of_string s)).
 Example C15_hub_examples :
@@ -35,4 +57,14 @@ Example C15_hub_examples :
   p "registry-1.docker.io/user/app" = Some ("docker.io", "user/app", "latest")%string /\
   p "localhost/app" = Some ("localhost", "app", "latest")%string /\
   p "Alpine" = None /\ p "a//b" = None /\ p "a:.x" = None /\ p "a@sha256:abcd" = None /\ p "http://a/b" = None /\ p "localhost:5000" = None.
+Proof. vm_compute. repeat split. Qed.
+(* non-vacuity of the round trip: accepted inputs of each shape, with the printed form *)
+Definition pp (s : string) := option_map (fun r => to_string (print r)) (parse (of_string s)).
+Example C15_roundtrip_examples :
+  pp "alpine" = Some "docker.io/library/alpine:latest"%string /\
+  pp "registry-1.docker.io/user/app:v1" = Some "docker.io/user/app:v1"%string /\
+  pp "localhost:5000/a/b@sha256:0123456789abcdef0123456789abcdef0123456789abcdef0123456789abcdef"
+    = Some "localhost:5000/a/b@sha256:0123456789abcdef0123456789abcdef0123456789abcdef0123456789abcdef"%string /\
+  pp "ocidir://path/to dir:tag" = Some "ocidir://path/to dir:tag"%string /\
+  pp "ocifile://x.tar" = Some "ocifile://x.tar"%string.
 Proof. vm_compute. repeat split. Qed.
